@@ -327,7 +327,7 @@ func checkC17(p *Program, r *Report) {
 			}
 		})
 		// helper functions called with possibly-nil results: InitialiseOutputs(model, …)
-		r.Floor("R17.2", "nil-safety obligations", n, 5)
+		r.Floor("R17.2", "nil-safety obligations", n, 3)
 		for _, a := range uniq(assumed) {
 			r.Notes = append(r.Notes, a)
 		}
@@ -924,7 +924,7 @@ func checkWarnings(p *Program, r *Report, pk *ssa.Package, runner *ssa.Function)
 	} else {
 		r.Fail("R17.5", "sim.RunSingleModelJSON:log-warnings", p.Pos(runner.Pos()), "the warnings returned by Initialise are not all passed to the log before the model runs")
 	}
-	r.Floor("R17.5", "reporting obligations", nW, 3)
+	r.Floor("R17.5", "reporting obligations", nW, 2)
 
 	// R17.7: a supplied series lands in the row of the input it was supplied for
 	r.Rule("R17.7", "input assembly: each supplied series is written to the row whose index is the position, in the model description's input list, of the name it was looked up under (same loop index for the lookup and for the row)")
